@@ -228,10 +228,10 @@ def real_clock_runs(ctx, lab, big):
     tf = os.path.join(core.REPO, "tests", "test_files")
     long_k = lab.kernel("kernel_x86_long_LCD.s", ARCH_X86, open(os.path.join(tf, "kernel_x86_long_LCD.s")).read())
     jobs = []   # (kernel, timeouts, reference?)
-    jobs.append((long_k, [0, 1, 2] if not big else [0, 1, 2, 3], False))
-    for k in dense_kernels(ctx, lab, 1 if not big else 3):
+    jobs.append((long_k, [0, 1, 2], False))
+    for k in dense_kernels(ctx, lab, 1 if not big else 5):
         jobs.append((k, [0, 1], False))
-    ordinary = C16.make_kernels(ctx, lab, 3 if not big else 8)
+    ordinary = C16.make_kernels(ctx, lab, 3 if not big else 14)
     for k in ordinary:
         jobs.append((k, [0, 1, 2, 50, -1], True))
     dist = {"timeouts": {}, "cut": 0, "complete": 0, "entries_partial": []}
@@ -368,7 +368,7 @@ def run(ctx):
     ctx.env.activate()
     lab = L.Lab(ctx)
     big = ctx.tier == "thorough" or bool(ctx.broken)
-    n_cut = virtual_runs(ctx, lab, 60 if ctx.tier == "thorough" else (30 if big else 14))
+    n_cut = virtual_runs(ctx, lab, 160 if ctx.tier == "thorough" else (30 if big else 14))
     long_k, ordinary = real_clock_runs(ctx, lab, ctx.tier == "thorough")
     if getattr(ctx, "hung", 0) < 2:
         report_level(ctx, lab, long_k, ordinary)
